@@ -152,6 +152,7 @@ def gen_grid(r, model, target_events=None, uniform=True, vol=None, npts=None):
     bound = max(lam, bounded, 0.05)
     # bounded production keeps growing: allow for it
     horizon = target / bound
+    horizon = cap_horizon(model, horizon, max_events=max(40 * target, 4000), vol=vol)
     step = horizon / (n - 1)
     # snap to k/64 (at least 1/64)
     k = max(1, int(round(step * 64)))
@@ -356,3 +357,60 @@ def strip_markers(model):
                 d["reactants"].remove(mk)
             if not d["products"] and not d["reactants"]:
                 rxn["delay"] = None
+
+
+def expected_events(model, horizon, vol=None, steps=300, safe=False):
+    """Mean-field (explicit Euler, clipped at 0) estimate of the cumulative number of firings over [0, horizon].
+    Returns list of (time, cumulative events). Used only to keep generated runs within an event budget."""
+    st = {s: float(model["init"].get(s, 0)) for s in model["species"]}
+    pr = dict(model.get("params", {}))
+    cols = []
+    for rxn in model["reactions"]:
+        imm, dly = rm.stoich_columns(rxn)
+        net = dict(imm)
+        for sname, v in dly.items():
+            net[sname] = net.get(sname, 0) + v
+        cols.append(net)
+    h = horizon / steps
+    cum = 0.0
+    out = [(0.0, 0.0)]
+    t = 0.0
+    for i in range(steps):
+        try:
+            rm.apply_rules(model, st, pr, t, False, h)
+            a = rm.propensities(model, st, pr, t, vol, False)
+        except (ZeroDivisionError, OverflowError, ValueError):
+            break
+        a = [x if (x == x and x > 0) else 0.0 for x in a]
+        lam = sum(a)
+        # sub-step so that no species changes by more than ~50% per step
+        sub = 1
+        if lam * h > 0.5 * (1.0 + sum(st.values())):
+            sub = min(200, int(lam * h / (0.5 * (1.0 + sum(st.values())))) + 1)
+        hh = h / sub
+        for _ in range(sub):
+            try:
+                a = rm.propensities(model, st, pr, t, vol, False)
+            except (ZeroDivisionError, OverflowError, ValueError):
+                return out
+            a = [x if (x == x and x > 0) else 0.0 for x in a]
+            for aj, col in zip(a, cols):
+                for sname, c in col.items():
+                    st[sname] = max(0.0, st[sname] + c * aj * hh)
+            cum += sum(a) * hh
+            t += hh
+        out.append((t, cum))
+        if cum > 1e9:
+            break
+    return out
+
+
+def cap_horizon(model, horizon, max_events=30000, vol=None):
+    """Largest horizon <= the given one whose mean-field event estimate stays below max_events."""
+    ev = expected_events(model, horizon, vol)
+    if ev[-1][1] <= max_events:
+        return horizon
+    for (t, c) in ev:
+        if c > max_events:
+            return max(t * 0.8, horizon * 1e-6)
+    return horizon
